@@ -91,6 +91,20 @@ int main() {
                 node.key() = id;
                 vals.insert(std::move(node));
                 std::cout << show(id, vals.at(id)) << std::endl;
+            } else if (cmd == "ip3") {
+                // three-argument form with a reused destination: dst (the object stored under <d>) = a op b; whatever
+                // dst held before must not survive in either representation; dst is renamed <id>
+                std::string name; long d = -1, a = -1, b = -1; is >> name >> d >> a >> b;
+                FastRational & dst = vals.at(d);
+                if (name == "add") addition(dst, vals.at(a), vals.at(b));
+                else if (name == "sub") subtraction(dst, vals.at(a), vals.at(b));
+                else if (name == "mul") multiplication(dst, vals.at(a), vals.at(b));
+                else if (name == "div") division(dst, vals.at(a), vals.at(b));
+                else throw std::runtime_error("unknown three-argument op " + name);
+                auto node = vals.extract(d);
+                node.key() = id;
+                vals.insert(std::move(node));
+                std::cout << show(id, vals.at(id)) << std::endl;
             } else if (cmd == "q") {
                 std::string name; long a = -1, b = -1; is >> name >> a; is >> b;
                 FastRational const & x = vals.at(a);
